@@ -35,7 +35,7 @@ theorem exists_singleton_sub {n c : Nat} (hc : c < 2 ^ n) (h0 : c ≠ 0) :
 theorem sub_grand {n c : Nat} (hc : c < 2 ^ n) : c &&& (2 ^ n - 1) = c := by
   rw [Nat.and_two_pow_sub_one_eq_mod]; exact Nat.mod_eq_of_lt hc
 
-theorem grand_lt (n : Nat) : 2 ^ n - 1 < 2 ^ n := by
+theorem sam_grand_lt (n : Nat) : 2 ^ n - 1 < 2 ^ n := by
   have : 0 < 2 ^ n := Nat.two_pow_pos n
   omega
 
@@ -78,7 +78,7 @@ theorem exists_properSub {n : Nat} {known : Nat → Bool} (hmi : MinInfo n known
 /-- under `MinInfo`, the grand coalition is a known proper superset of every unknown coalition -/
 theorem sam_grand_mem_knownSupers {n : Nat} {known : Nat → Bool} (hmi : MinInfo n known) {c : Nat}
     (hc : c < 2 ^ n) (hk : known c = false) : 2 ^ n - 1 ∈ knownSupers n known c := by
-  refine mem_knownSupers_iff.mpr ⟨grand_lt n, sub_grand hc, ?_, hmi.2.1⟩
+  refine mem_knownSupers_iff.mpr ⟨sam_grand_lt n, sub_grand hc, ?_, hmi.2.1⟩
   intro h; rw [← h, hmi.2.1] at hk; cases hk
 
 /-! ### `splitSpec` -/
